@@ -13,6 +13,7 @@ EXPLANATION = (
     "(or the class) is called exactly once per created instance and a creator result of the wrong type raises; the mode "
     "literals tested equal the ones the behavior decorator accepts; register() defaults the mode only if none is set or inherited. "
     'Also decided: the instance tables are created per daemon / per connection, read and written under the same key, a fresh instance is stored before it is returned, close() drops session instances on every path, _getInstance runs exactly for registered classes, the creator is tested by identity with None. '
+    "Also decided (round 7): Only the behavior decorator and register()'s guarded default write a class's instance mode. "
     "Not decided: identity across real histories/schedules (follows only under the interpreter's lock semantics)."
 )
 
